@@ -64,13 +64,42 @@ def base_env(extra: T.Optional[T.Dict[str, str]] = None, hashseed: str = '0') ->
 
 
 def run_sub(args: T.Sequence[str], cwd: T.Optional[str] = None, env: T.Optional[T.Dict[str, str]] = None,
-            timeout: float = 300, hashseed: str = '0', input: T.Optional[str] = None) -> Result:
-    """`python /repo/meson.py <args>` in a fresh process."""
+            timeout: float = 300, hashseed: str = '0', input: T.Optional[str] = None,
+            cpu_limit: T.Optional[int] = None, max_output: T.Optional[int] = None) -> Result:
+    """`python /repo/meson.py <args>` in a fresh process.
+
+    cpu_limit (seconds of CPU, RLIMIT_CPU) / max_output (bytes per stream, RLIMIT_FSIZE on temp files) bound a child
+    that a broken tree sends into an endless loop printing messages: it is killed by the kernel (rc < 0, callers treat
+    that as inconclusive) instead of filling the parent's memory through a pipe."""
     e = base_env(env, hashseed)
-    p = subprocess.run([PY, '-B', MESON_PY] + list(args), cwd=cwd, env=e, stdout=subprocess.PIPE, stderr=subprocess.PIPE,
-                       timeout=timeout, input=input.encode() if input is not None else None,
-                       stdin=subprocess.DEVNULL if input is None else None)
-    return Result(p.returncode, p.stdout.decode('utf-8', 'replace'), p.stderr.decode('utf-8', 'replace'))
+    cmd = [PY, '-B', MESON_PY] + list(args)
+    if cpu_limit is None and max_output is None:
+        p = subprocess.run(cmd, cwd=cwd, env=e, stdout=subprocess.PIPE, stderr=subprocess.PIPE,
+                           timeout=timeout, input=input.encode() if input is not None else None,
+                           stdin=subprocess.DEVNULL if input is None else None)
+        return Result(p.returncode, p.stdout.decode('utf-8', 'replace'), p.stderr.decode('utf-8', 'replace'))
+    import resource
+    import tempfile
+
+    def limits() -> None:
+        if cpu_limit is not None:
+            resource.setrlimit(resource.RLIMIT_CPU, (cpu_limit, cpu_limit + 2))
+        if max_output is not None:
+            resource.setrlimit(resource.RLIMIT_FSIZE, (max_output, max_output))
+
+    tmpdir = '/dev/shm' if os.path.isdir('/dev/shm') else None
+    with tempfile.TemporaryFile(dir=tmpdir) as fo, tempfile.TemporaryFile(dir=tmpdir) as fe:
+        rc = -9
+        try:
+            p = subprocess.run(cmd, cwd=cwd, env=e, stdout=fo, stderr=fe, timeout=timeout, preexec_fn=limits,
+                               input=input.encode() if input is not None else None,
+                               stdin=subprocess.DEVNULL if input is None else None)
+            rc = p.returncode
+        finally:
+            fo.seek(0)
+            fe.seek(0)
+            out, err = fo.read(), fe.read()
+    return Result(rc, out.decode('utf-8', 'replace'), err.decode('utf-8', 'replace'))
 
 
 _inproc_ready = False
